@@ -198,6 +198,11 @@ func (g *gen) deepAbstractOps() []func() *Op {
 			return g.finalize(opType, root, nil, nil)
 		})
 	}
+	type lateOp struct {
+		opType string
+		root   []*Sel
+	}
+	var late []lateOp // appended after the abstract family, whose indices (shards) stay what they were
 	// 1. abstract root fields
 	for _, rt := range []struct {
 		typ, op string
@@ -242,6 +247,25 @@ func (g *gen) deepAbstractOps() []func() *Op {
 			if !isComposite(ft) {
 				continue
 			}
+			// 3. a plain composite field BEFORE a nested field resolver inside the selection of this resolver
+			// (the other order is the reorder reformulation of that selection)
+			if k == "resolver" && ft.Kind == gast.Object {
+				if path == nil {
+					path = g.pathTo(tn)
+				}
+				for _, sub := range g.plainThenResolver(ft) {
+					if entityPath != nil {
+						n := g.fieldNode(def, f)
+						n.Sel = cloneSels(sub)
+						late = append(late, lateOp{"query", g.wrapPath(entityPath, []*Sel{n})})
+					}
+					if path != nil && !(entityPath != nil && len(path) == 2 && path[1].field == nil) {
+						n := g.fieldNode(def, f)
+						n.Sel = cloneSels(sub)
+						late = append(late, lateOp{"query", g.wrapPath(path, []*Sel{n})})
+					}
+				}
+			}
 			subs := g.abstractBelow(ft.Name, deepLevels)
 			if ft.Kind == gast.Interface || ft.Kind == gast.Union {
 				// the abstract answer of the resolver / @requires field itself, without a fragment
@@ -268,6 +292,60 @@ func (g *gen) deepAbstractOps() []func() *Op {
 					add("query", g.wrapPath(path, []*Sel{n}))
 				}
 			}
+		}
+	}
+	for _, l := range late {
+		add(l.opType, l.root)
+	}
+	return out
+}
+
+// plainThenResolver: the selections [p {leaf}, r2] of an object type: p a plain
+// object / list-of-object field, r2 a field resolver of the same type (the
+// first one that returns a scalar and the first one that returns an object).
+func (g *gen) plainThenResolver(def *gast.Definition) [][]*Sel {
+	leafOf := func(d *gast.Definition) *Sel {
+		fs := g.plainScalarFields(d, 1)
+		if len(fs) == 0 {
+			return nil
+		}
+		return g.fieldNode(d, fs[0])
+	}
+	var plains, resolvers []*Sel
+	haveScalar, haveObject := false, false
+	for _, f := range def.Fields {
+		if strings.HasPrefix(f.Name, "__") {
+			continue
+		}
+		ft := g.e.schema.Types[f.Type.Name()]
+		switch g.fieldKind(def, f) {
+		case "plain":
+			if ft != nil && ft.Kind == gast.Object {
+				if l := leafOf(ft); l != nil {
+					n := g.fieldNode(def, f)
+					n.Sel = []*Sel{l}
+					plains = append(plains, n)
+				}
+			}
+		case "resolver":
+			switch {
+			case ft != nil && (ft.Kind == gast.Scalar || ft.Kind == gast.Enum) && !haveScalar:
+				haveScalar = true
+				resolvers = append(resolvers, g.fieldNode(def, f))
+			case ft != nil && ft.Kind == gast.Object && !haveObject:
+				if l := leafOf(ft); l != nil {
+					haveObject = true
+					n := g.fieldNode(def, f)
+					n.Sel = []*Sel{l}
+					resolvers = append(resolvers, n)
+				}
+			}
+		}
+	}
+	var out [][]*Sel
+	for _, p := range plains {
+		for _, r := range resolvers {
+			out = append(out, []*Sel{p, r})
 		}
 	}
 	return out
